@@ -32,6 +32,11 @@ struct Case {
     /// shared by `cargo tauri-typegen generate` and the build script)
     #[serde(default)]
     other_entry: Vec<bool>,
+    /// idem histories: what happens to the output directory just before run k:
+    /// ("lose", name): a generated file is deleted (run k has to restore it, run k+1 must
+    /// again find everything current); ("appear", name): another program drops a file there
+    #[serde(default)]
+    between: Vec<Option<(String, String)>>,
     cfg: Cfg,
     setup: Setup,
     /// idem: run 0 generates, the rest repeat. force: run 0 prepares, run 1 is judged
@@ -179,6 +184,20 @@ impl Check for C14 {
             && !cfg.flag_visualize
             && cfg.file_out.is_none();
         let other_entry: Vec<bool> = (0..n).map(|k| k > 0 && !force_kind && shared_layout && (i / 11) % 3 == 0 && pr.chance(1, 2)).collect();
+        let mut br = r.split("between");
+        let between: Vec<Option<(String, String)>> = (0..n)
+            .map(|k| {
+                if k == 0 || force_kind || (i / 11) % 4 != 2 {
+                    None
+                } else if k + 1 < n && br.chance(1, 3) {
+                    Some(("lose".to_string(), br.pick(&["types.ts", "commands.ts", "index.ts"]).to_string()))
+                } else if br.chance(1, 3) {
+                    Some(("appear".to_string(), br.pick(&["types.d.ts", "index.d.ts", "models.ts", "bindings.ts", "generated_client.ts", "notes.md", "commands.d.ts"]).to_string()))
+                } else {
+                    None
+                }
+            })
+            .collect();
         let mut fr = r.split("force");
         // the force matrix is walked systematically: (cache state) x (force source) x (setup);
         // i = 3*fk + 2 visits every setup for every cell because 3 is coprime to the setup count
@@ -206,6 +225,7 @@ impl Check for C14 {
             flags,
             foreign,
             other_entry,
+            between,
             cfg,
             setup,
             procs,
@@ -279,6 +299,20 @@ impl Check for C14 {
         if c.kind == "idem" {
             let mut hits = 0;
             for k in 1..c.procs.len() {
+                let mut restoring = false;
+                if let Some(Some((what, name))) = c.between.get(k) {
+                    let p = w.out_dir(&c.setup).join(name);
+                    if what == "lose" {
+                        if p.is_file() {
+                            let _ = std::fs::remove_file(&p);
+                            restoring = true;
+                            co.count("runs_that_had_to_restore_a_lost_file", 1);
+                        }
+                    } else if !p.exists() {
+                        let _ = std::fs::write(&p, format!("// dropped here by another program: {}\n", name));
+                        co.count("files_appearing_between_runs", 1);
+                    }
+                }
                 let before_files = scen::out_files(&w, &c.setup);
                 let mut setup_k = c.setup.clone();
                 if c.other_entry.get(k).copied().unwrap_or(false) {
@@ -316,6 +350,20 @@ impl Check for C14 {
                     .filter(|(n, b)| after_files.get(*n) != Some(b))
                     .map(|(n, _)| n)
                     .collect();
+                if restoring {
+                    // this run is allowed (required) to write: the lost file must be back
+                    if let Some(Some((_, name))) = c.between.get(k) {
+                        if !after_files.contains_key(name) {
+                            co.violate(
+                                "C14/lost-file-not-restored".into(),
+                                "A (history): a run over an output directory that lost a generated file brings it back",
+                                format!("run {}: {} still missing ({})", k, name, c.setup.label()),
+                            );
+                            break;
+                        }
+                    }
+                    continue;
+                }
                 if touched.is_empty() && changed.is_empty() {
                     hits += 1;
                     co.count("cache_hits_on_repeat", 1);
